@@ -268,6 +268,13 @@ func (propC12) Judge(sc *Scenario) *Verdict {
 				"has_default": fmt.Sprint(len(oi.O.Default) > 0), "has_init": fmt.Sprint(oi.O.Init != nil),
 				"include_defaults": fmt.Sprint(iniOpts&iniIncludeDefaults != 0), "read_failed": fmt.Sprint(readFailed),
 			}
+			if len(oi.O.Default) > 0 {
+				// what the default tags denote (harness's own converter), to tell "the default
+				// came back" from any other wrong value
+				if dv, err := modelApply(oi.O.Kind, strs(oi.O.Default)); err == nil {
+					attrs["back_is_default"] = fmt.Sprint(dumpV(oi.O.Kind, dv) == back[path])
+				}
+			}
 			if readFailed {
 				// only blame options whose rendering the error can stem from: decide by
 				// re-reading is not possible model-free, so the whole read failure is
